@@ -3143,7 +3143,7 @@ func (s *fragmentSyncer) syncBlock(id int) error {
 
 			clearReq := &ImportRoaringRequest{
 				Clear: true,
-				Views: map[string][]byte{"": clearData},
+				Views: map[string][]byte{cleanViewName(f.view): clearData},
 			}
 
 			if err := s.Cluster.InternalClient.ImportRoaring(ctx, uris[i], f.index, f.field, f.shard, true, clearReq); err != nil {
